@@ -91,6 +91,32 @@ func NewLexPart(header, imports, prodList interface{}) (*LexPart, error) {
 	return lexPart, nil
 }
 
+// UndefinedRegDef returns the id of a regular definition that some lexical production uses
+// but that is not defined, or "" if there is none. A use inside a regular definition that
+// nothing refers to counts as well (item construction would never look it up).
+func (this *LexPart) UndefinedRegDef() string {
+	use := &regDefUse{defined: this.RegDefs}
+	for _, p := range this.ProdList.Productions {
+		p.LexPattern().Walk(use)
+	}
+	return use.undefined
+}
+
+// regDefUse is a LexNodeVisitor that remembers the first use of an undefined regular definition.
+type regDefUse struct {
+	defined   map[string]*LexRegDef
+	undefined string
+}
+
+func (this *regDefUse) Visit(node LexNode) LexNodeVisitor {
+	if id, ok := node.(*LexRegDefId); ok && this.undefined == "" {
+		if _, exist := this.defined[id.Id]; !exist {
+			this.undefined = id.Id
+		}
+	}
+	return this
+}
+
 func (this *LexPart) StringLitTokDef(id string) *LexTokDef {
 	tokDef := this.stringLitToks[id]
 	return tokDef
